@@ -56,6 +56,9 @@ def generate(seed: int, tier: str = "quick") -> dict:
     nops = rp.choice([4, 6, 8, 12, 16, 24])
     slots = sorted((rp.randint(-1, nb - 1), rp.choice([1, 2, 3, 3, 4])) for _ in range(nops))
     supplied, borrowed = set(), set()
+    if R.sub(seed, "via_files").random() < 0.15:
+        mw["via_files"] = True  # the index history reaches the market through minute files and the real loader
+        faults.append({"kind": "data_read_from_minute_files"})
     overdraft = R.sub(seed, "overdraft").random() < 0.1
     if overdraft:
         # Actuator(allow_negative_balance=True): the wallet subtracts exactly (no snap-to-zero), may go below zero
